@@ -314,6 +314,30 @@ func cmdC19(c *ctx) {
 				c.count("e2e-blankspace")
 			}
 		}
+		// trailing commas where the grammar has `','? ')'` / `','? '>'`: attribute argument lists and template lists
+		{
+			s8 := attrArgsRe.ReplaceAllString(src, "@$1($2,)")
+			if s8 != src {
+				after := compileAll(s8, ep)
+				d := diffOutputs(base, after, false)
+				c.line("e2e.txt", fmt.Sprintf("%s %s %s %s", "attribute-trailing-comma", q(d), q(src), q(s8)))
+				c.count("e2e-attribute-trailing-comma")
+			}
+			// `var x: vec2<f32>= …`: the template list ends at `>` whatever follows (template list discovery comes first)
+			if s10 := typeCloseEqRe.ReplaceAllString(src, "$1= "); s10 != src {
+				after := compileAll(s10, ep)
+				d := diffOutputs(base, after, false)
+				c.line("e2e.txt", fmt.Sprintf("%s %s %s %s", "template-close-then-equals", q(d), q(src), q(s10)))
+				c.count("e2e-template-close-then-equals")
+			}
+			s9 := templateListRe.ReplaceAllString(src, "$1<$2,>")
+			if s9 != src {
+				after := compileAll(s9, ep)
+				d := diffOutputs(base, after, false)
+				c.line("e2e.txt", fmt.Sprintf("%s %s %s %s", "template-trailing-comma", q(d), q(src), q(s9)))
+				c.count("e2e-template-trailing-comma")
+			}
+		}
 		if gm != nil {
 			// redundant parentheses and trailing commas
 			wrender = &renderOpts{rng: c.rng, parenProb: 0.3, trailingComma: true}
@@ -353,6 +377,9 @@ func cmdC19(c *ctx) {
 	}
 }
 
+var attrArgsRe = regexp.MustCompile(`@(workgroup_size|binding|group|location|builtin|interpolate|size|align|id)\(([^()]*[^(),\s])\s*\)`)
+var templateListRe = regexp.MustCompile(`\b(vec[234]|array|ptr|atomic|mat[234]x[234])<([^<>]*[^<>,\s])\s*>`)
+var typeCloseEqRe = regexp.MustCompile(`(: (?:vec[234]|mat[234]x[234]|array|atomic)<[^<>;=]*(?:<[^<>;=]*>)?[^<>;=]*>) = `)
 var localIdentRe = regexp.MustCompile(`\b(vv|ll|kk|ii|pp)([0-9]+(_[0-9]+)?)\b`)
 var fnHeadRe = regexp.MustCompile(`(?m)^(@[^\n]*\n)*fn \w+\(`)
 
